@@ -12,6 +12,10 @@
     rejected - ACTUAL with exactly the deviations listed as known.
 (5) The same for the Smr level (spec/QCSmr.tla, driver `c15 smr`): proposals and votes arrive as real signed
     p2p messages at the real Smr handlers.
+(6) Multi-replica phase (checks/bftnet_common.py, spec/BftNet.tla, driver harness/cmd/bftnet): a network of 4 real Smr
+    instances executes TLC-generated schedules of block production, message deliveries in any order (repeated, never),
+    confirmations, rollbacks and byzantine injections; every replica's projection and every sent message is validated
+    after every step; TLC model-checks commit safety, vote uniqueness, quorums and the locking rule on the network design.
 """
 import concurrent.futures
 import json
@@ -23,6 +27,7 @@ import vp
 
 sys.path.insert(0, os.path.dirname(os.path.abspath(__file__)))
 from _tlcdump import tla_value, read_dump, known as known_findings, mc_dump   # noqa: E402
+import bftnet_common                                                            # noqa: E402
 
 KF_ALL = ["KF_OrphanFirstMatchOnly", "KF_StaleMarkers"]
 STATS = {}
@@ -113,9 +118,16 @@ def check(run):
 
     if run.replay:
         rp = json.load(open(run.replay))
+        if rp.get("phase") == "bftnet":
+            bftnet_common.bftnet_replay(run, rp)
+            run.finish(require={})
         replay_validate(run, [rp["program"]], kf, "rp", rp.get("driver", "replay"), rp.get("trace_module", "Trace_QCTree.tla"),
                         rp.get("trace_cfg", "Trace_QCTree.cfg"), 1, 1)
         run.finish(require={})
+
+    # (6) the multi-replica phase runs beside the others (own binary, own TLC directories)
+    bft_pool = concurrent.futures.ThreadPoolExecutor(max_workers=1)
+    bft_job = bft_pool.submit(bftnet_common.bftnet_phase, run, quick, bftnet_common.build(run))
 
     pool = concurrent.futures.ThreadPoolExecutor(max_workers=6)
     # (2) generation by simulation, beside the model check
@@ -135,7 +147,9 @@ def check(run):
         res, dump, _ = mc_dump(run, "QCTree.tla", "MC_QCTree.cfg", workers=12, timeout=900)
     # Smr level: the chain and one fork of 5 proposals, breadth-first to 5 (quick) / 7 (thorough) handler calls
     run.tlc_mc("QCSmr.tla", "MC_QCSmr.cfg" if quick else "MC_QCSmr_thorough.cfg", workers=8 if quick else 14, timeout=900)
-    run.cov["model_checks"][-1]["bounded_by_level"] = 5 if quick else 7
+    for mc in run.cov["model_checks"]:
+        if mc["module"] == "QCSmr.tla":
+            mc["bounded_by_level"] = 5 if quick else 7
     cover = behaviours_from_dump(dump)
     os.remove(dump)
     gen = []
@@ -155,7 +169,9 @@ def check(run):
     if not run.violations:
         sevents = replay_validate(run, sgen, kf, "smr", "smr", "Trace_QCSmr.tla", "Trace_QCSmr.cfg", batch=150 if quick else 400, par=par)
 
-    run.samples = [cover[len(cover) // 2], gen[0][:12], sgen[0][:12]]
+    bft = bft_job.result()
+    bft_pool.shutdown()
+    run.samples = [cover[len(cover) // 2], gen[0][:12], sgen[0][:12]] + (run.samples or [])
     run.cov["real_code"] = dict(STATS)
     run.cov["cases"] = {"state_cover_behaviours": len(cover), "state_cover_source": res["cfg"], "tlc_generated_tree_behaviours": len(gen),
                         "tlc_generated_smr_behaviours": len(sgen), "max_proposals_exhaustive": 5 if quick else 6, "max_proposals_simulated": 12}
@@ -166,7 +182,8 @@ def check(run):
         "generic / locked / commit are compared once assigned by a certification or rollback; the initialisation values "
         "(CommitQC = genesis) are not the property's subject",
         "Smr level: 4 validators, the node under test is member 1; every justify carries valid signatures of members 2..4"]
-    run.finish(require={
+    req = bftnet_common.thresholds(bft, quick)
+    req.update({
         "tree_events": (events, 3000),
         "root_moves_on_real_tree": (STATS.get("tree.root_moves", 0), 30),
         "orphan_adoptions_on_real_tree": (STATS.get("tree.adoptions", 0), 100),
@@ -180,3 +197,4 @@ def check(run):
         "smr_quorums": (STATS.get("smr.quorums", 0), 50),
         "smr_root_moves": (STATS.get("smr.root_moves", 0), 5),
     })
+    run.finish(require=req)
